@@ -97,3 +97,316 @@ def c03(ctx):
 
 REPLAYERS["C02"] = "replay-simcore"
 REPLAYERS["C03"] = "replay-simcore"
+
+
+# ---------------------------------------------------------------------------
+# C09 / C10: Queue
+
+def divisors(n):
+    return [d for d in range(1, n + 1) if n % d == 0]
+
+
+def rand_queue_schedules(seed, n, path):
+    """Random topologies / arrival processes in real units (bytes, ns|us|ms ticks)."""
+    import random
+    rng = random.Random(seed)
+    div6 = divisors(1000000)
+    with open(path, "w") as f:
+        for _ in range(n):
+            unit = rng.choice(["ns", "ns", "us", "us", "ms"])
+            S = {"ns": 1, "us": 1000, "ms": 1000000}[unit]
+            nq = rng.choice([1, 1, 2, 3])
+            chain = ["q%d" % (i + 1) for i in range(nq)]
+            par = {}
+            for q in chain:
+                if unit == "ns":
+                    bw = rng.choice([0, rng.randint(1000000, 1000000000), rng.choice([1000000, 12500000, 100000000, 1000000000])])
+                    lat = rng.choice([0, rng.randint(1, 1000), rng.randint(1000, 50000000)])
+                elif unit == "us":
+                    bw = rng.choice([0] + [1000000 // k for k in div6 if 1000000 // k >= 1000] * 2)
+                    lat = rng.choice([0, rng.randint(1, 1000), rng.randint(1000, 10000000)])
+                else:
+                    bw = rng.choice([0, 1000])
+                    lat = rng.choice([0, rng.randint(1, 10000)])
+                cap = rng.choice([0, 0, rng.randint(1, 100), rng.randint(100, 4000), rng.randint(4000, 200000)])
+                par[q] = {"lat": lat, "cap": cap, "nspb": 0, "bw": bw}
+            npk = rng.randint(1, 40)
+            t = 0
+            inj = []
+            bw0 = par[chain[0]]["bw"]
+            for _k in range(npk):
+                mode = rng.random()
+                size = rng.choice([rng.randint(20, 100), rng.randint(100, 1540), 1515, rng.randint(1540, 65563)])
+                if unit == "ms":
+                    size = rng.randint(20, 1540)
+                kind = rng.choice(["payload", "payload", "payload", "ack", "syn", "error", "syn_ack"])
+                if mode < 0.4:
+                    gap = 0
+                elif mode < 0.7 and bw0:
+                    # a multiple of the serialisation time: arrivals coincide with departures
+                    gap = (size * 1000000000 // bw0) // S * rng.randint(1, 3)
+                else:
+                    gap = rng.choice([1, rng.randint(1, 1000), rng.randint(1000, 3000000 if unit == "ns" else 30000)])
+                t += gap
+                inj.append({"t": t, "size": size, "kind": kind, "cb": rng.random() < 0.8,
+                            "echo": rng.random() < 0.15})
+            f.write(json.dumps({"real": True, "S": S, "U": rng.randint(1, 200), "chain": chain, "par": par, "inj": inj}) + "\n")
+
+
+def classify_queue_reject(rj):
+    """Maps a rejected run to (owner property, signature), using only observed events:
+    a packet that entered a queue and never leaves it (nor is reported dropped) is lost (C10);
+    one that leaves at the wrong time or out of order is a timing/FIFO matter (C09)."""
+    ev = rj["event"]
+    state = rj.get("state") or ""
+    try:
+        e = json.loads(ev)
+    except ValueError:
+        e = {"e": "<end>"}
+    name = e.get("e")
+    if rj.get("invariant"):
+        inv = rj["invariant"]
+        owner = "C09" if inv in ("NeverFaster", "RateBound", "Fifo", "LastOK") else "C10"
+        return owner, "queue.invariant." + inv
+    if "pend |-> TRUE" in state:
+        return "C10", "queue.drop-not-reported@" + str(name)
+    if name in ("Livelock", "Abandon"):
+        return "both", "queue.livelock"
+    if name == "OffGrid":
+        return "C09", "queue.offgrid-time"
+    # bookkeeping over the matched prefix: ids held per queue (arrived, not departed, not reported dropped)
+    held = {}
+    last_arr = None
+    for l in rj["lines"][:rj["at"]]:
+        o = json.loads(l)
+        if o["e"] == "Arr":
+            held.setdefault(o["q"], []).append(o["id"])
+            last_arr = (o["q"], o["id"])
+        elif o["e"] == "Dep" and o["id"] in held.get(o["q"], []):
+            held[o["q"]].remove(o["id"])
+        elif o["e"] == "DropCb" and last_arr and last_arr[1] == o["id"]:
+            held[last_arr[0]].remove(o["id"])
+    later = [json.loads(l) for l in rj["lines"][rj["at"]:]]
+
+    def departs_later(q, pid):
+        return any(o.get("e") == "Dep" and o.get("q") == q and o.get("id") == pid for o in later)
+
+    if name == "Adv":
+        lost = [q for q, ids in held.items() if ids and not departs_later(q, ids[0])]
+        if lost:
+            return "C10", "queue.packet-lost(head never forwarded nor reported dropped)"
+        return "C09", "queue.late-departure"
+    if name == "Dep":
+        hq = held.get(e.get("q"), [])
+        if not e.get("intact", True):
+            return "C10", "queue.packet-altered"
+        if e.get("id") not in hq:
+            return "C10", "queue.forwarded-but-not-held(duplicate, or dropped and forwarded)"
+        if hq[0] != e.get("id"):
+            if departs_later(e.get("q"), hq[0]):
+                return "C09", "queue.fifo-order"
+            return "C10", "queue.packet-lost(head never forwarded nor reported dropped)"
+        return "C09", "queue.departure-time"
+    if name in ("Arr", "DropCb"):
+        return "C10", "queue.drop-decision@" + name
+    if name == "End":
+        return "C10", "queue.packet-lost-at-quiescence"
+    return "both", "queue.reject@" + str(name)
+
+
+def queue_check(ctx):
+    pid = ctx.pid
+    q = ctx.tier == "quick"
+    ctx.rule = ("arrival schedules (sizes, kinds, callbacks, echo replies, instants incl. coincidences with departures) "
+                "enumerated by TLC from MCQueue.tla plus random real-unit topologies of 1-3 queues; each is executed on "
+                "real sim::queue objects between probe sinks, the recorded event trace is validated by TLC against "
+                "Queue.tla (TraceQueue.tla); non-trivial = run with >= 1 departure and (C09) >= 2 packets overlapping in "
+                "the queue or (C10) >= 1 drop; distinct by schedule text")
+    ctx.assumptions = ["probe sinks see every packet entering/leaving a queue; serialisation time per packet is computed "
+                       "by the harness from observed size and configured bandwidth (exact integer arithmetic)",
+                       "times of TLC-scheduled runs are integral in spec ticks by construction; random runs use ns/us/ms ticks",
+                       "tolerance of one tick on departures in real-unit runs (double -> int64 rounding in queue.cpp)"]
+    vlib.tlc_mc(ctx, "MCQueue.tla", "MC_Queue.cfg", timeout=600)
+    vlib.tlc_mc(ctx, "MCQueue.tla", "MC_Queue2.cfg", timeout=600, ignore_actions=("Cb",))
+    files = []
+    f1 = ctx.path("qs_bfs.ndjson")
+    vlib.tlc_gen(ctx, "GenQueue.tla", "Gen_Queue_q.cfg" if q else "Gen_Queue.cfg", f1, timeout=900)
+    files.append(f1)
+    f2 = ctx.path("qs_chain.ndjson")
+    vlib.tlc_gen(ctx, "GenQueue.tla", "Gen_Queue2_q.cfg" if q else "Gen_Queue2.cfg", f2, timeout=900)
+    files.append(f2)
+    if q:
+        f3 = ctx.path("qs_sim.ndjson")
+        vlib.tlc_gen(ctx, "GenQueue.tla", "Gen_Queue.cfg", f3, simulate=(400, 200))
+        files.append(f3)
+    f4 = ctx.path("qs_rand.ndjson")
+    rand_queue_schedules(ctx.seed, 1500 if q else 30000, f4)
+    files.append(f4)
+    ctx.exhaustive = True
+    for f in files:
+        res, total, chunks = vlib.replay(ctx, "record-queue", f, keep=True, env={"VH_WALL_LIMIT": "600"})
+        bad = [r for r in res if not r.get("ok")]
+        cases = vlib.read_lines(f, [r["i"] for r in bad[:100]])
+        for r in bad:
+            ctx.violation("queue." + r["sig"], r.get("msg", ""), cases.get(r["i"], {"index": r["i"]}),
+                          {"subcmd": "record-queue"})
+        ctx.evaluations += len(res)
+        traces = [c + ".trace" for c in chunks if os.path.exists(c + ".trace")]
+        out = vlib.validate_traces(ctx, "TraceQueue.tla", "Trace_Queue.cfg", traces)
+        for (nruns, nev, rejected), tp in zip(out, traces):
+            ctx.traces += nruns
+            for rj in rejected:
+                owner, sig = classify_queue_reject(rj)
+                if owner in (pid, "both"):  # LastOK covers C09 invariants
+                    ctx.violation(sig, "trace rejected at event %d: %s (spec state %s)" % (rj["at"], rj["event"][:300], rj["state"]),
+                                  {"trace": rj["lines"]}, {"kind": "trace", "module": "TraceQueue.tla", "cfg": "Trace_Queue.cfg"})
+                else:
+                    log("[%s] rejected run belongs to %s: %s" % (pid, owner, sig))
+            # non-trivial runs
+            with open(tp) as fh:
+                run = []
+                for line in fh:
+                    if line.startswith('{"e":"Cfg"'):
+                        run = []
+                    run.append(line)
+                    if line.startswith('{"e":"End"'):
+                        txt = "".join(run)
+                        if pid == "C10":
+                            nt = '"e":"DropCb"' in txt and '"e":"Dep"' in txt
+                        else:
+                            nt = txt.count('"e":"Dep"') >= 2 and txt.count('"e":"Arr"') >= 2
+                        if nt:
+                            ctx.nontrivial.add(hash(txt))
+                            ctx.add_sample([json.loads(x) for x in run[:14]])
+
+
+@check("C09", "model_checking")
+def c09(ctx):
+    queue_check(ctx)
+
+
+@check("C10", "model_checking")
+def c10(ctx):
+    queue_check(ctx)
+
+
+# ---------------------------------------------------------------------------
+# C14: Resolver
+
+def rand_resolver_programs(seed, n, path):
+    import random
+    rng = random.Random(seed)
+    with open(path, "w") as f:
+        for _ in range(n):
+            F = rng.choice([1, 1, 1000])
+            conf = {}
+            for nm in "abcd":
+                conf[nm] = {"lat": rng.choice([0, 1, 2, 3, 10, 50, rng.randint(0, 200)]),
+                            "ec": rng.choice(["ok", "ok", "ok", "host_not_found"]),
+                            "addrs": rng.choice([[], [1], [1, 2], [3, 2, 1, 4], [5, 5]])}
+                if conf[nm]["ec"] != "ok":
+                    conf[nm]["addrs"] = []
+            ops = []
+            t = 0
+            nops = rng.randint(1, 25)
+            nres = 0
+            for _k in range(nops):
+                t += rng.choice([0, 0, 1, 1, 2, 3, rng.randint(1, 60)])
+                r = rng.random()
+                if r < 0.55:
+                    o = {"a": "host", "name": rng.choice("abcd"), "t": t}
+                    nres += 1
+                elif r < 0.8:
+                    o = {"a": "lit", "t": t}
+                    nres += 1
+                else:
+                    o = {"a": "cancel", "t": t}
+                if nres > 1 and rng.random() < 0.2:
+                    o["inh"] = rng.randint(1, nres - 1)
+                ops.append(o)
+            f.write(json.dumps({"F": F, "conf": conf, "ops": ops, "destroy": rng.random() < 0.3}) + "\n")
+
+
+def classify_resolver_reject(rj):
+    try:
+        e = json.loads(rj["event"])
+    except ValueError:
+        return "resolver.reject@end"
+    n = e.get("e")
+    if n == "Done":
+        if e.get("inline"):
+            return "resolver.handler-inline"
+        return "resolver.completion(%s)" % e.get("ec")
+    if n == "Adv":
+        return "resolver.late-or-missing-completion"
+    if n == "End":
+        return "resolver.lookup-never-completed"
+    if n == "Lookup":
+        return "resolver.config-consulted-unexpectedly"
+    if n in ("Host", "Lit", "Cancel"):
+        return "resolver.config-not-consulted" if "pending" in (rj.get("state") or "") and n != "Host" and False else "resolver.reject@" + n
+    return "resolver.reject@" + str(n)
+
+
+@check("C14", "model_checking")
+def c14(ctx):
+    q = ctx.tier == "quick"
+    ctx.rule = ("resolver programs (host-name / literal resolves and cancels at chosen instants, incl. coincidences with "
+                "completions; random ones also issue ops from inside completion handlers and destroy the resolver) "
+                "enumerated by TLC from MCResolver.tla or drawn at random; executed on real tcp/udp resolvers with a "
+                "scripted configuration; the recorded trace (requests, configuration lookups, completions with time, "
+                "error, addresses, port) is validated by TLC against Resolver.tla; non-trivial = >= 2 lookups pending "
+                "together or a cancel with something pending; distinct by program text")
+    ctx.assumptions = ["times logged in microseconds; tolerance Slack = 1 us as in the statement",
+                       "the scripted configuration logs every hostname_lookup call"]
+    vlib.tlc_mc(ctx, "MCResolver.tla", "MC_Resolver.cfg", timeout=600)
+    files = []
+    f1 = ctx.path("rs_bfs.ndjson")
+    vlib.tlc_gen(ctx, "GenResolver.tla", "Gen_Resolver_q.cfg" if q else "Gen_Resolver.cfg", f1, timeout=900)
+    files.append(f1)
+    if q:
+        f3 = ctx.path("rs_sim.ndjson")
+        vlib.tlc_gen(ctx, "GenResolver.tla", "Gen_Resolver_sim.cfg", f3, simulate=(300, 200))
+        files.append(f3)
+    f2 = ctx.path("rs_rand.ndjson")
+    rand_resolver_programs(ctx.seed, 2000 if q else 40000, f2)
+    files.append(f2)
+    ctx.exhaustive = True
+    for f in files:
+        res, total, chunks = vlib.replay(ctx, "record-resolver", f, keep=True, env={"VH_WALL_LIMIT": "600"})
+        bad = [r for r in res if not r.get("ok")]
+        cases = vlib.read_lines(f, [r["i"] for r in bad[:100]])
+        for r in bad:
+            ctx.violation("resolver." + r["sig"], r.get("msg", ""), cases.get(r["i"], {"index": r["i"]}),
+                          {"subcmd": "record-resolver"})
+        ctx.evaluations += len(res)
+        traces = [c + ".trace" for c in chunks if os.path.exists(c + ".trace")]
+        out = vlib.validate_traces(ctx, "TraceResolver.tla", "Trace_Resolver.cfg", traces)
+        for (nruns, nev, rejected), tp in zip(out, traces):
+            ctx.traces += nruns
+            for rj in rejected:
+                sig = classify_resolver_reject(rj)
+                ctx.violation(sig, "trace rejected at event %d: %s (spec state %s)" % (rj["at"], rj["event"][:300], rj["state"]),
+                              {"trace": rj["lines"]}, {"kind": "trace", "module": "TraceResolver.tla", "cfg": "Trace_Resolver.cfg"})
+            with open(tp) as fh:
+                run = []
+                for line in fh:
+                    if line.startswith('{"e":"Cfg"'):
+                        run = []
+                    run.append(line)
+                    if line.startswith('{"e":"End"'):
+                        txt = "".join(run)
+                        pend = 0
+                        nt = False
+                        for l2 in run:
+                            if l2.startswith('{"e":"Host"') or l2.startswith('{"e":"Lit"'):
+                                pend += 1
+                                if pend >= 2:
+                                    nt = True
+                            elif l2.startswith('{"e":"Done"'):
+                                pend -= 1
+                            elif l2.startswith('{"e":"Cancel"') and pend > 0:
+                                nt = True
+                        if nt:
+                            ctx.nontrivial.add(hash(txt))
+                            ctx.add_sample([json.loads(x) for x in run[:16]])
